@@ -155,3 +155,19 @@ def validate_frequencies(frequencies: Arr(Real, None), max_freq: Real, min_freq:
 @contract("mir_eval.tempo.validate_tempi", props="C14")
 def validate_tempi(tempi: Arr(Real, 2), reference: Bool = True):
     raises(ValueError, when=tempi[0] < 0 or tempi[1] < 0 or (reference and tempi[0] == 0 and tempi[1] == 0), props="C14")
+
+
+@contract("mir_eval.util._outer_distance_mod_n", props="C05 C07 C04")
+def _outer_distance_mod_n(ref: Arr(Real, None), est: Arr(Real, None), modulus: Real = 12.0) -> Arr(Real, None, None):
+    """circular distance of the residues: min(|a - b|, n - |a - b|) with a = ref mod n, b = est mod n"""
+    requires(modulus > 0)
+    ensures(forall2_rect(length(ref), length(est), lambda i, j: result[i, j] == min(absr(ref[i] % modulus - est[j] % modulus),
+                                                                                        modulus - absr(ref[i] % modulus - est[j] % modulus))),
+            label='circular-distance', props="C05 C04")
+    ensures(forall2_rect(length(ref), length(est), lambda i, j: 0 <= result[i, j] and 2 * result[i, j] <= modulus), label='range', props="C05")
+
+
+@contract("mir_eval.util.intervals_to_durations", props="C12 C04 C14")
+def intervals_to_durations(intervals: Arr(Real, None, 2)) -> Arr(Real, None):
+    raises(ValueError, when=not forall(0, length(intervals), lambda i: 0 <= intervals[i, 0] and 0 <= intervals[i, 1] and intervals[i, 0] < intervals[i, 1]), props="C14")
+    ensures(length(result) == length(intervals), forall(0, length(intervals), lambda i: result[i] == absr(intervals[i, 1] - intervals[i, 0])), label='durations')
